@@ -558,14 +558,19 @@ class Normal(_AbstractDistribution):
                 + self.normalization_constant
             )
         else:
+            quadratic_form = (
+                (self.means - coordinates).T
+                @ self.inverse_covariance
+                @ (self.means - coordinates)
+            ).flatten()[0]
+            if quadratic_form < 0.0:
+                # Only by overflow (mixed signs of the terms of the sum, for points some
+                # 1e154 away): the quadratic form of a positive definite matrix stands
+                # for +inf then, never for -inf
+                quadratic_form = _numpy.inf
             return (
                 self.misfit_bounds(coordinates)
-                + 0.5
-                * (
-                    (self.means - coordinates).T
-                    @ self.inverse_covariance
-                    @ (self.means - coordinates)
-                ).flatten()[0]
+                + 0.5 * quadratic_form
                 + self.normalization_constant
             )
 
